@@ -34,7 +34,7 @@ prefix is the decode of the whole. -/
 theorem decode_local (p s : List Nat) (hp : p <+: s) :
     (4 ≤ p.length → decodeUtf8 s = decodeUtf8 p) ∧
     ((decodeUtf8 p).1 ≠ DECODE_ERROR → decodeUtf8 s = decodeUtf8 p) :=
-  ⟨decode_ge4 p s hp, fun hc => decode_prefix_stable p s hp _ _ rfl hc⟩
+  ⟨decode_ge4 p s hp, fun hc => decode_prefix_stable p s hp (decodeUtf8 p).1 (decodeUtf8 p).2 rfl hc⟩
 
 /-- `lookahead_chunk_indep`: let `bytes` be what is left of the cached chunk at offset `pos`
 (any non-empty prefix of the rest of the text — whatever chunk happens to be cached) and `read` any
@@ -67,7 +67,7 @@ theorem lookahead_chunk_indep (text : List Nat) (read : Read) (pos : Nat) (bytes
         show decodeUtf8 (b0 :: (bt ++ t)) = _
         unfold decodeUtf8; simp [hb]
       rw [this]
-      have hne1 : ((b0 : Int) == DECODE_ERROR) = false := by simp [DECODE_ERROR]; omega
+      have hne1 : ((b0 : Int) == DECODE_ERROR) = false := by simp [DECODE_ERROR] <;> omega
       simp [norm, hne1]
     · simp only [hb, if_false]
       by_cases herr : (decodeUtf8 (b0 :: bt)).1 = DECODE_ERROR
@@ -80,7 +80,7 @@ theorem lookahead_chunk_indep (text : List Nat) (read : Read) (pos : Nat) (bytes
             rcases hw with h1 | h2 | h3
             · have := decode_err_prefix (read pos) _ hc2 h1
               simp [norm, h1, this]
-            · have e := decode_prefix_stable (read pos) _ hc2 _ _ rfl h2
+            · have e := (decode_local (read pos) _ hc2).2 h2
               rw [e]
             · rw [h3]
           rw [← hsame]
@@ -94,7 +94,7 @@ theorem lookahead_chunk_indep (text : List Nat) (read : Read) (pos : Nat) (bytes
       · have hcond : ((decodeUtf8 (b0 :: bt)).1 == DECODE_ERROR && decide ((b0 :: bt).length < 4)) = false := by
           simp [herr]
         simp only [hcond, Bool.false_eq_true, if_false]
-        have e := decode_prefix_stable (b0 :: bt) (text.drop pos) ⟨t, ht⟩ _ _ rfl herr
+        have e := (decode_local (b0 :: bt) (text.drop pos) ⟨t, ht⟩).2 herr
         rw [e]
         simp [norm, herr]
 
